@@ -200,6 +200,7 @@ class FsIntrinsics(Intrinsics):
         from contracts.shapes import log_append
         e = eng.gread(st, 'eff')
         eng.gwrite(st, 'eff', log_append(e, eff_term))
+        eng.gwrite(st, 'vstate', eng.gread(st, 'vstate') + 1)
 
     def lib_effects(self, call):
         f = call.func
@@ -212,11 +213,11 @@ class FsIntrinsics(Intrinsics):
         elif isinstance(f, ast.Name):
             name = f.id
         if name == 'mkdtemp':
-            return {'fs_kind', 'eff', 'fs_epoch', 'mkdtemp_at'}
+            return {'fs_kind', 'eff', 'fs_epoch', 'mkdtemp_at', 'vstate'}
         if name in ('mkdir', 'rmdir', 'remove', 'rename', 'replace', 'makedirs', 'rmtree'):
-            return {'fs_kind', 'eff', 'fs_epoch', 'rm_attempts'}
+            return {'fs_kind', 'eff', 'fs_epoch', 'rm_attempts', 'vstate'}
         if name in ('open',) and isinstance(f, ast.Attribute):
-            return {'fs_kind', 'eff', 'fs_epoch'}
+            return {'fs_kind', 'eff', 'fs_epoch', 'vstate'}
         return set()
 
     def may_fail(self, eng, st, node, classes=('OtherOSError',)):
@@ -718,7 +719,7 @@ class FsIntrinsics(Intrinsics):
         self.record_callback_args(eng, base, f, pos, kws, starv, dstarv, node)
         hook(eng, base, f, pos, kws, starv, dstarv)
         e_before = eng.gread(base, 'eff')
-        for g in ('fs_kind', 'eff', 'fs_epoch', 'rm_attempts'):
+        for g in ('fs_kind', 'eff', 'fs_epoch', 'rm_attempts', 'vstate', 'bd_res'):
             eng.gwrite(base, g, fresh('Gcb!' + g, eng.GHOST_SORTS[g]))
         # the effect trace is a log: user code (through nested builder calls) only appends
         from contracts.shapes import log_prefix
@@ -740,6 +741,7 @@ class FsIntrinsics(Intrinsics):
         cls = fresh('cb_exc_cls', ExcClsS)
         s_exc.assume(cls != EXC['BaseException'])      # abstract root: some concrete subclass
         exc = ExcV(cls, fresh('exc', IntS), 'callback')
+        eng.gwrite(s_exc, 'cb_exc', exc.ident)
         s_exc.trace.append('cb%d:raise' % node.lineno)
         outs.append((s_exc, Raise(exc)))
         return outs
